@@ -59,6 +59,12 @@ def run(pid, tier):
             # a long-tour history: 25-60 jobs on few vehicles without tight constraints (every state is large: few of them, 40 steps)
             c = pgen.long_tours(pgen.make_case(rnd.randrange(1 << 30), 'large', features={'unreachable': False, 'breaks': False, 'multishift': False, 'pd': True}))
         c['steps'] = min(steps, 40) if long_history else steps
+        if i % 20 == 9:
+            # conditional jobs under the searches: a medium problem with breaks on every shift, mostly search steps (decomposition needs
+            # three or more tours and keeps conditional jobs that are waiting in `ignored`)
+            c = pgen.make_case(rnd.randrange(1 << 30), 'medium', features={'breaks': True, 'unreachable': False, 'travel_only': False})
+            c['steps'] = steps
+            c['only'] = ['search', 'search', 'rr']
         c['threads'] = rnd.choice([1, 2, 4])
         c['seed'] = rnd.randrange(1 << 30)
         cases.append(c)
